@@ -105,8 +105,8 @@ def code (i : Insn) : Nat := i.op / 16
 def useReg (i : Insn) : Bool := (i.op / 8) % 2 == 1
 def isAlu (i : Insn) : Bool := cls i == 7 || cls i == 4
 def isJmpCls (i : Insn) : Bool := cls i == 5 || cls i == 6
-def isCall (i : Insn) : Bool := i.op == 0x85
-def isExit (i : Insn) : Bool := i.op == 0x95
+def isCall (i : Insn) : Bool := cls i == 5 && code i == 8
+def isExit (i : Insn) : Bool := cls i == 5 && code i == 9
 def isJa (i : Insn) : Bool := i.op == 0x05
 def isLdImm64 (i : Insn) : Bool := i.op == 0x18
 /-- a jump with a target: JA or a conditional jump -/
@@ -148,7 +148,7 @@ def defs (i : Insn) : List Nat :=
   if isAlu i then [i.dst]
   else if isCall i then (match helperArgs i.imm with | some (_, false) => [] | _ => [0])
   else if isJmpCls i then []
-  else if cls i == 0 || isLdx i then [i.dst]
+  else if isLdImm64 i || isLdx i then [i.dst]
   else []
 
 /-- the registers an instruction leaves without a value -/
@@ -159,8 +159,8 @@ def target (pc : Nat) (i : Insn) : Nat := ((pc : Int) + 1 + i.off).toNat
 /-- the program counters that can follow `pc` (mirrors `Ebv.Ebpf.step`) -/
 def succPcs (pc : Nat) (i : Insn) : List Nat :=
   if isJmpCls i then
-    if cls i == 5 && code i == 8 then [pc + 1]
-    else if cls i == 5 && code i == 9 then []
+    if isCall i then [pc + 1]
+    else if isExit i then []
     else if code i == 0 then [target pc i]
     else [pc + 1, target pc i]
   else if cls i == 0 then [pc + 2]
@@ -183,14 +183,14 @@ def wfInsn (i : Insn) : Bool :=
          (if code i == 6 || code i == 7 || code i == 12 then decide (0 ≤ i.imm) && decide (i.imm < aluWidth i)
           else if code i == 3 || code i == 9 then i.imm != 0 else true))
   else if isJmpCls i then
-    if isCall i then i.dst == 0 && i.src == 0 && i.off == 0
-    else if isExit i then i.dst == 0 && i.src == 0 && i.off == 0 && i.imm == 0
+    if isCall i then i.op == 0x85 && i.dst == 0 && i.src == 0 && i.off == 0
+    else if isExit i then i.op == 0x95 && i.dst == 0 && i.src == 0 && i.off == 0 && i.imm == 0
     else if code i == 0 then isJa i && i.dst == 0 && i.src == 0 && i.imm == 0
     else (code i ≤ 7 || (10 ≤ code i && code i ≤ 13)) && code i != 0 && (if useReg i then i.imm == 0 else i.src == 0)
   else if cls i == 0 then isLdImm64 i && i.dst ≤ 9 && i.off == 0 && (i.src == 0 || i.src == 1)
   else if isLdx i then memMode i == 3 && i.dst ≤ 9 && i.imm == 0
   else if isSt i then memMode i == 3 && i.src == 0
-  else (memMode i == 3 && i.imm == 0) || (memMode i == 6 && i.imm == 0 && (sizeOf i.op == 4 || sizeOf i.op == 8))
+  else (memMode i == 3 && i.imm == 0) || (memMode i == 6 && i.imm == 0 && (Ebpf.sizeOf i.op == 4 || Ebpf.sizeOf i.op == 8))
 
 def wfSecond (j : Insn) : Bool := j.op == 0 && j.dst == 0 && j.src == 0 && j.off == 0
 
@@ -216,5 +216,384 @@ def lastOk (prog : List Insn) : Bool :=
 def structOk (prog : List Insn) : Bool :=
   lastOk prog && (List.range prog.length).all fun pc =>
     isSecond prog pc || (match prog[pc]? with | some i => structAt prog pc i | none => false)
+
+/-! ## the transfer function (rules 1-4, 6, 7) -/
+
+abbrev R := Except String
+
+def immU32 (imm : Int) : Nat := (imm % 4294967296).toNat
+/-- the immediate as an unsigned 64-bit number (sign-extended 32 bits) -/
+def immU64 (imm : Int) : Nat :=
+  let u := immU32 imm
+  if u < 2147483648 then u else u + (18446744073709551616 - 4294967296)
+
+def capW (w : Nat) (b : Option Nat) : Nat :=
+  match b with
+  | some v => min v (2 ^ w - 1)
+  | none => 2 ^ w - 1
+
+def fitW (w v : Nat) : Option Nat := if v < 2 ^ w then some v else none
+
+/-- upper bound of the result of a `w`-bit ALU operation on operands with the given bounds; `sh` = exact immediate -/
+def aluBound (w c : Nat) (a b : Option Nat) (sh : Option Nat) : Option Nat :=
+  match c, a, b with
+  | 0, some x, some y => fitW w (x + y)
+  | 2, some x, some y => fitW w (x * y)
+  | 3, x, _ => x
+  | 9, x, _ => x
+  | 4, some x, some y => fitW w (x + y)
+  | 10, some x, some y => fitW w (x + y)
+  | 5, some x, some y => some (min x y)
+  | 5, some x, none => some x
+  | 5, none, some y => some y
+  | 6, some x, _ => (match sh with | some k => fitW w (x * 2 ^ k) | none => none)
+  | 7, some x, _ => (match sh with | some k => some (x / 2 ^ k) | none => some x)
+  | 7, none, _ => (match sh with | some k => some (2 ^ (w - k) - 1) | none => none)
+  | 12, some x, _ => if x < 2 ^ (w - 1) then (match sh with | some k => some (x / 2 ^ k) | none => some x) else none
+  | 11, _, y => y
+  | _, _, _ => none
+
+def scalarBound : Kind → Option Nat
+  | .scalar b => b
+  | _ => none
+
+def aluScalar (i : Insn) (a b : Option Nat) : Kind :=
+  let w := aluWidth i
+  let cap : Option Nat → Option Nat := fun x => if w = 64 then x else some (capW 32 x)
+  let sh : Option Nat := if useReg i then none else some i.imm.toNat
+  .scalar (cap (aluBound w (code i) (cap a) (cap b) sh))
+
+def ptrAddImm (d : Kind) (k : Int) : R Kind :=
+  match d with
+  | .fp o => .ok (.fp (o + k))
+  | .mapval f o m => .ok (.mapval f (o + k) m)
+  | .pkt o r => .ok (.pkt (o + k) r)
+  | .mapvalOrNull _ _ => .error "null:pointer arithmetic on map_value_or_null prohibited, null-check it first"
+  | .pktEnd => .error "ptr-alu:pointer arithmetic on pkt_end prohibited"
+  | .mapfd _ => .error "ptr-alu:pointer arithmetic on map_ptr prohibited"
+  | .ctx => .error "ctx:arithmetic on the context pointer (not modelled)"
+  | _ => .error "internal:ptrAddImm"
+
+/-- pointer (dst) += scalar register: only the bounded-offset pattern on map values -/
+def ptrAddVar (d : Kind) (b : Option Nat) : R Kind :=
+  match d, b with
+  | .mapval f o m, some u => if u < 536870912 then .ok (.mapval f o (m + u)) else .error "mapval:offset bound too large"
+  | .mapval _ _ _, none => .error "mapval:math between map_value pointer and register with unbounded min value is not allowed"
+  | .mapvalOrNull _ _, _ => .error "null:pointer arithmetic on map_value_or_null prohibited, null-check it first"
+  | .pktEnd, _ => .error "ptr-alu:pointer arithmetic on pkt_end prohibited"
+  | .mapfd _, _ => .error "ptr-alu:pointer arithmetic on map_ptr prohibited"
+  | _, _ => .error "ptr-var:variable offset on this pointer kind (not modelled)"
+
+def aluStep (i : Insn) (a : AbsState) : R AbsState :=
+  let d := a.reg i.dst
+  let s : Kind := if useReg i then a.reg i.src else .scalar (some (if cls i == 7 then immU64 i.imm else immU32 i.imm))
+  let c := code i
+  if c == 11 then                                           -- MOV
+    if cls i == 7 then .ok (a.set i.dst s)
+    else .ok (a.set i.dst (aluScalar i none (scalarBound s)))
+  else if c == 8 || c == 13 then                            -- NEG, END
+    if d.isPtr then .error "ptr-alu:pointer arithmetic prohibited"
+    else .ok (a.set i.dst (.scalar (if c == 13 && decide (i.imm < 64) then some (2 ^ i.imm.toNat - 1) else none)))
+  else if !d.isPtr && !s.isPtr then .ok (a.set i.dst (aluScalar i (scalarBound d) (scalarBound s)))
+  else if cls i != 7 then .error "ptr-alu:32-bit pointer arithmetic prohibited"
+  else if c == 0 then                                       -- ADD
+    if d.isPtr && s.isPtr then .error "ptr-alu:pointer += pointer prohibited"
+    else if d.isPtr then do
+      let k ← if useReg i then ptrAddVar d (scalarBound s) else ptrAddImm d i.imm
+      pure (a.set i.dst k)
+    else do
+      let k ← ptrAddVar s (scalarBound d)
+      pure (a.set i.dst k)
+  else if c == 1 then                                       -- SUB
+    if d.isPtr && s.isPtr then .ok (a.set i.dst (.scalar none))
+    else if d.isPtr && !useReg i then do
+      let k ← ptrAddImm d (-i.imm)
+      pure (a.set i.dst k)
+    else .error "ptr-var:pointer -= register (not modelled)"
+  else .error "ptr-alu:pointer arithmetic with this operator prohibited"
+
+/-- mask of the frame bytes [lo, lo+size), lo in [-512, 0) -/
+def stackMask (lo : Int) (size : Nat) : Nat := (2 ^ size - 1) <<< (lo + 512).toNat
+
+def inFrame (lo : Int) (size : Nat) : Bool := decide (-512 ≤ lo) && decide (lo + size ≤ 0)
+
+/-- `size` readable bytes behind a pointer passed to a helper -/
+def checkMemArg (cfg : Config) (geo : MapGeometry) (a : AbsState) (what : String) (k : Kind) (size : Nat) : R Unit :=
+  match k with
+  | .fp o =>
+    if !inFrame o size then .error s!"stack:invalid indirect access to stack {what}"
+    else if cfg.allowUninitStack || (a.stack &&& stackMask o size == stackMask o size) then .ok ()
+    else .error s!"stack:invalid indirect read from stack {what}"
+  | .mapval f o m =>
+    match geo.find f with
+    | some mi => if decide (0 ≤ o) && decide (o + m + size ≤ mi.valueSize) then .ok () else .error s!"mapval:invalid access to map value {what}"
+    | none => .error "helper:unknown map"
+  | .pkt o r => if decide (0 ≤ o) && decide (o + size ≤ r) then .ok () else .error s!"pkt:invalid access to packet {what}"
+  | k => .error s!"helper:{what} type={k.name} expected=fp, pkt, map_value"
+
+def mapArg (geo : MapGeometry) (k : Kind) (wantProgArray : Bool) : R MapInfo :=
+  match k with
+  | .mapfd f =>
+    match geo.find f with
+    | some mi =>
+      if (mi.kind == .progArray) == wantProgArray then .ok mi
+      else .error "helper:cannot pass this map type into the helper"
+    | none => .error "helper:unknown map"
+  | k => .error s!"helper:R1 type={k.name} expected=map_ptr"
+
+def afterCall (a : AbsState) (ret : Kind) : AbsState :=
+  (((((a.set 0 ret).set 1 .uninit).set 2 .uninit).set 3 .uninit).set 4 .uninit).set 5 .uninit
+
+def callHelper (cfg : Config) (geo : MapGeometry) (pc : Nat) (a : AbsState) (id : Int) : R AbsState :=
+  if id == 1 then do
+    let mi ← mapArg geo (a.reg 1) false
+    checkMemArg cfg geo a "R2" (a.reg 2) mi.keySize
+    pure (afterCall a (.mapvalOrNull (match a.reg 1 with | .mapfd f => f | _ => 0) pc))
+  else if id == 2 then do
+    let mi ← mapArg geo (a.reg 1) false
+    checkMemArg cfg geo a "R2" (a.reg 2) mi.keySize
+    checkMemArg cfg geo a "R3" (a.reg 3) mi.valueSize
+    pure (afterCall a (.scalar none))
+  else if id == 3 then do
+    let mi ← mapArg geo (a.reg 1) false
+    checkMemArg cfg geo a "R2" (a.reg 2) mi.keySize
+    pure (afterCall a (.scalar none))
+  else if id == 5 || id == 7 then pure (afterCall a (.scalar none))
+  else if id == 12 then do
+    if a.reg 1 != .ctx then throw s!"helper:R1 type={(a.reg 1).name} expected=ctx"
+    let _ ← mapArg geo (a.reg 2) true
+    pure (afterCall a .uninit)
+  else .error s!"helper:unknown func {id}"
+
+def loadedScalar (size : Nat) : Kind := .scalar (if size < 8 then some (2 ^ (8 * size) - 1) else none)
+
+/-- LDX / ST / STX / XADD through base kind `b` at `b + off`, `size` bytes: the state after it and the loaded kind -/
+def memStep (cfg : Config) (geo : MapGeometry) (a : AbsState) (rn : Nat) (b : Kind) (off : Int) (size : Nat) (rd wr : Bool) :
+    R (AbsState × Kind) :=
+  match b with
+  | .fp o =>
+    let lo := o + off
+    if !inFrame lo size then .error s!"stack:invalid stack off={lo} size={size}"
+    else if lo % (size : Int) != 0 then .error s!"stack:misaligned stack access off {lo} size {size}"
+    else if rd && !(cfg.allowUninitStack || (a.stack &&& stackMask lo size == stackMask lo size)) then
+      .error s!"stack:invalid read from stack off {lo} size {size}"
+    else .ok (if wr then { a with stack := a.stack ||| stackMask lo size } else a, loadedScalar size)
+  | .mapval f o m =>
+    match geo.find f with
+    | some mi =>
+      if decide (0 ≤ o + off) && decide (o + off + m + size ≤ mi.valueSize) then .ok (a, loadedScalar size)
+      else .error s!"mapval:invalid access to map value, value_size={mi.valueSize} off={o + off} size={size}"
+    | none => .error "mapval:unknown map"
+  | .pkt o r =>
+    if rd && wr then .error s!"pkt:BPF_ATOMIC stores into R{rn} pkt is not allowed"
+    else if decide (0 ≤ o + off) && decide (o + off + size ≤ r) then .ok (a, loadedScalar size)
+    else .error s!"pkt:invalid access to packet, off={o + off} size={size}, R{rn} range={r}"
+  | .ctx =>
+    if wr then .error "ctx:invalid bpf_context access (write)"
+    else if size != 4 then .error "ctx:invalid bpf_context access (size)"
+    else if off == 0 then .ok (a, .pkt 0 0)
+    else if off == 4 then .ok (a, .pktEnd)
+    else if off == 12 || off == 16 || off == 20 then .ok (a, .scalar (some 4294967295))
+    else .error s!"ctx:invalid bpf_context access off={off} (data_meta not modelled)"
+  | .mapvalOrNull _ _ => .error s!"null:R{rn} invalid mem access 'map_value_or_null'"
+  | .uninit => .error s!"uninit:R{rn} !read_ok"
+  | k => .error s!"mem:R{rn} invalid mem access '{k.name}'"
+
+/-! ## branches -/
+
+def mapRegs (a : AbsState) (f : Kind → Kind) : AbsState := { a with regs := a.regs.map f }
+
+def refineNull (a : AbsState) (id : Nat) (nonNull : Bool) : AbsState :=
+  mapRegs a fun k =>
+    match k with
+    | .mapvalOrNull f id' => if id' == id then (if nonNull then .mapval f 0 0 else .scalar (some 0)) else k
+    | k => k
+
+/-- every packet pointer learns that `n` bytes from the start of the packet are readable; `o` = offset of the compared
+pointer, `opn` = the comparison was strict (as `find_good_pkt_pointers`) -/
+def refinePkt (a : AbsState) (o : Int) (opn : Bool) : AbsState :=
+  if o < 0 || (o == 0 && opn) then a else
+  let n := o.toNat + (if opn then 1 else 0)
+  mapRegs a fun k =>
+    match k with
+    | .pkt o' r => .pkt o' (max r n)
+    | k => k
+
+def refineBound (a : AbsState) (r : Nat) (n : Nat) : AbsState :=
+  match a.reg r with
+  | .scalar b => a.set r (.scalar (some (min (capW 64 b) n)))
+  | _ => a
+
+/-- states on the fall-through and on the taken edge of a conditional jump -/
+def branch (i : Insn) (a : AbsState) : AbsState × AbsState :=
+  if cls i != 5 then (a, a) else
+  let c := code i
+  let d := a.reg i.dst
+  if useReg i then
+    match d, a.reg i.src with
+    | .pkt o _, .pktEnd =>
+      if c == 2 then (refinePkt a o false, a) else if c == 3 then (refinePkt a o true, a)
+      else if c == 10 then (a, refinePkt a o true) else if c == 11 then (a, refinePkt a o false) else (a, a)
+    | .pktEnd, .pkt o _ =>
+      if c == 2 then (a, refinePkt a o true) else if c == 3 then (a, refinePkt a o false)
+      else if c == 10 then (refinePkt a o false, a) else if c == 11 then (refinePkt a o true, a) else (a, a)
+    | .scalar _, .scalar (some k) =>
+      if c == 2 then (refineBound a i.dst k, a) else if c == 3 && k > 0 then (refineBound a i.dst (k - 1), a)
+      else if c == 10 && k > 0 then (a, refineBound a i.dst (k - 1)) else if c == 11 then (a, refineBound a i.dst k) else (a, a)
+    | _, _ => (a, a)
+  else
+    let k := immU64 i.imm
+    match d with
+    | .mapvalOrNull _ id =>
+      if i.imm == 0 && c == 1 then (refineNull a id true, refineNull a id false)
+      else if i.imm == 0 && c == 5 then (refineNull a id false, refineNull a id true)
+      else (a, a)
+    | .scalar _ =>
+      if c == 2 then (refineBound a i.dst k, a) else if c == 3 && k > 0 then (refineBound a i.dst (k - 1), a)
+      else if c == 10 && k > 0 then (a, refineBound a i.dst (k - 1)) else if c == 11 then (a, refineBound a i.dst k)
+      else if c == 1 then (a, refineBound a i.dst k) else if c == 5 then (refineBound a i.dst k, a) else (a, a)
+    | _ => (a, a)
+
+def ldImm64 (geo : MapGeometry) (i : Insn) (j : Option Insn) (a : AbsState) : R AbsState :=
+  if i.src == 1 then
+    match geo.find i.imm with
+    | some _ => .ok (a.set i.dst (.mapfd i.imm))
+    | none => .error s!"helper:fd {i.imm} is not pointing to valid bpf_map"
+  else
+    let hi := match j with | some j => immU32 j.imm | none => 0
+    .ok (a.set i.dst (.scalar (some (immU32 i.imm + hi * 4294967296))))
+
+def checkReads (i : Insn) (a : AbsState) : R Unit :=
+  match (reads i).find? (fun r => !(decide (r < 11) && (a.reg r).isInit)) with
+  | some r => .error s!"uninit:R{r} !read_ok"
+  | none => .ok ()
+
+/-- abstract successors of instruction `i` at `pc` (`j` = the next slot, for LD_IMM64) -/
+def transfer (cfg : Config) (geo : MapGeometry) (pc : Nat) (i : Insn) (j : Option Insn) (a : AbsState) :
+    R (List (Nat × AbsState)) := do
+  checkReads i a
+  if isAlu i then
+    let a' ← aluStep i a
+    pure [(pc + 1, a')]
+  else if isJmpCls i then
+    if isCall i then do
+      let a' ← callHelper cfg geo pc a i.imm
+      pure [(pc + 1, a')]
+    else if isExit i then pure []
+    else if code i == 0 then pure [(target pc i, a)]
+    else
+      let (f, t) := branch i a
+      pure [(pc + 1, f), (target pc i, t)]
+  else if cls i == 0 then do
+    let a' ← ldImm64 geo i j a
+    pure [(pc + 2, a')]
+  else
+    let size := Ebpf.sizeOf i.op
+    if isLdx i then do
+      let (a', k) ← memStep cfg geo a i.src (a.reg i.src) i.off size true false
+      pure [(pc + 1, a'.set i.dst k)]
+    else do
+      let (a', _) ← memStep cfg geo a i.dst (a.reg i.dst) i.off size (isAtomic i) true
+      pure [(pc + 1, a')]
+
+/-! ## the forward pass and its validation -/
+
+abbrev Table := List (Option AbsState)
+
+def joinAt (t : Table) (pc : Nat) (a : AbsState) : Table :=
+  match t[pc]? with
+  | some (some b) => t.set pc (some (b.join a))
+  | some none => t.set pc (some a)
+  | none => t
+
+def flowStep (cfg : Config) (geo : MapGeometry) (prog : List Insn) (t : Table) (pc : Nat) : R Table :=
+  if isSecond prog pc then .ok t else
+  match prog[pc]?, t[pc]? with
+  | some i, some (some a) =>
+    match transfer cfg geo pc i prog[pc + 1]? a with
+    | .ok outs => .ok (outs.foldl (fun t (o : Nat × AbsState) => joinAt t o.1 o.2) t)
+    | .error e => .error s!"{e}@{pc}"
+  | _, _ => .error s!"struct:unreachable insn@{pc}"
+
+def flowFrom (cfg : Config) (geo : MapGeometry) (prog : List Insn) : List Nat → Table → R Table
+  | [], t => .ok t
+  | pc :: rest, t =>
+    match flowStep cfg geo prog t pc with
+    | .ok t' => flowFrom cfg geo prog rest t'
+    | .error e => .error e
+
+def flow (cfg : Config) (geo : MapGeometry) (prog : List Insn) : R Table :=
+  flowFrom cfg geo prog (List.range prog.length) ((List.replicate prog.length none).set 0 (some initState))
+
+/-- rule 1 on one edge: a register has a value after `i` only if `i` wrote it, or it had one and `i` did not kill it -/
+def defsOk (i : Insn) (a a' : AbsState) : Bool :=
+  a'.regs.length == 11 && (List.range 11).all fun r =>
+    !(a'.reg r).isInit || (defs i).contains r || ((a.reg r).isInit && !(kills i).contains r)
+
+def readsOk (i : Insn) (a : AbsState) : Bool := (reads i).all fun r => decide (r < 11) && (a.reg r).isInit
+
+/-- the table is inductive at `pc`: reads initialised, the transfer succeeds, every concrete successor is covered by an
+abstract successor, and every abstract successor is above the table entry of its target -/
+def checkAt (cfg : Config) (geo : MapGeometry) (prog : List Insn) (t : Table) (pc : Nat) : Bool :=
+  match prog[pc]?, t[pc]? with
+  | some i, some (some a) =>
+    readsOk i a &&
+    match transfer cfg geo pc i prog[pc + 1]? a with
+    | .ok outs =>
+      (succPcs pc i).all (fun q => outs.any (·.1 == q)) &&
+      outs.all fun o => defsOk i a o.2 && (match t[o.1]? with | some (some b) => b.leq o.2 | _ => false)
+    | .error _ => false
+  | some _, some none => isSecond prog pc
+  | _, _ => false
+
+def checkTable (cfg : Config) (geo : MapGeometry) (prog : List Insn) (t : Table) : Bool :=
+  t.length == prog.length &&
+  (match t[0]? with | some (some a0) => a0.leq initState | _ => false) &&
+  (List.range prog.length).all (checkAt cfg geo prog t)
+
+/-- CFG reachability as `check_cfg` sees it (both edges of every conditional jump): the first unreachable first-slot pc -/
+def reachFrom (prog : List Insn) : List Nat → List Bool → List Bool
+  | [], r => r
+  | pc :: rest, r =>
+    match prog[pc]? with
+    | some i => reachFrom prog rest (if r.getD pc false then (succPcs pc i).foldl (fun r q => r.set q true) r else r)
+    | none => r
+
+def firstUnreachable (prog : List Insn) : Option Nat :=
+  let r := reachFrom prog (List.range prog.length) ((List.replicate prog.length false).set 0 true)
+  (List.range prog.length).find? fun pc => !(isSecond prog pc) && !(r.getD pc false)
+
+/-- why `structAt` fails (for the driver): immediates of shifts/divisions/END are rule 7, everything else rule 5 -/
+def structReason (prog : List Insn) (pc : Nat) (i : Insn) : String :=
+  if isAlu i && !useReg i && (code i == 6 || code i == 7 || code i == 12) && !(decide (0 ≤ i.imm) && decide (i.imm < aluWidth i)) then
+    s!"alu:invalid shift {i.imm}"
+  else if isAlu i && !useReg i && (code i == 3 || code i == 9) && i.imm == 0 then "alu:div by zero"
+  else if isAlu i && code i == 13 && !(i.imm == 16 || i.imm == 32 || i.imm == 64) then s!"alu:invalid END width {i.imm}"
+  else if !wfInsn i then "struct:unknown opcode, reserved field or register out of range"
+  else if isLdImm64 i then "struct:invalid BPF_LD_IMM insn"
+  else if i.off < 0 then "struct:back-edge"
+  else if target pc i ≥ prog.length then "struct:jump out of range"
+  else "struct:jump into the middle of ldimm64"
+
+/-- `ok ()` or the first reason for rejection: `<rule>:<detail>@<pc>` -/
+def check (cfg : Config) (prog : List Insn) (geo : MapGeometry) : R Unit :=
+  if !structOk prog then
+    .error (match (List.range prog.length).find? (fun pc => !(isSecond prog pc ||
+        (match prog[pc]? with | some i => structAt prog pc i | none => false))) with
+      | some pc => s!"{structReason prog pc (prog.getD pc ⟨0, 0, 0, 0, 0⟩)}@{pc}"
+      | none => "struct:last insn is not an exit or jmp")
+  else
+    match firstUnreachable prog with
+    | some pc => .error s!"struct:unreachable insn@{pc}"
+    | none =>
+      match flow cfg geo prog with
+      | .error e => .error e
+      | .ok t => if checkTable cfg geo prog t then .ok () else .error "internal:table not inductive"
+
+def acceptsWith (cfg : Config) (prog : List Insn) (geo : MapGeometry) : Bool :=
+  structOk prog && (match flow cfg geo prog with | .ok t => checkTable cfg geo prog t | .error _ => false)
+
+/-- the unprivileged reading of rule 2 (every stack byte read was written) -/
+def accepts (prog : List Insn) (geo : MapGeometry) : Bool := acceptsWith {} prog geo
 
 end Ebv.MiniV
